@@ -228,6 +228,13 @@ def check(ctx):
     trajectory_rules(ctx, 'R4')
 
     # ---- R5: RGB565 -----------------------------------------------------------------------------------
+    # the twelve LEDs are twelve objects: the ring is built element by element (the constructor is covered by the generic rules, among
+    # them no-aliased-elements-by-list-multiplication)
+    led_init = m.func(LED, 'LEDDriverMemory.__init__')
+    ctx.touch(led_init)
+    mk = [c for c in walk_own(led_init.node) if isinstance(c, ast.Call) and norm(c.func) == 'LED']
+    ctx.inst('R5', led_init, 'one-led-object-per-position', len(mk) == 1 and any(isinstance(l_, (ast.For, ast.ListComp)) and any(mk[0] is x for x in ast.walk(l_)) for l_ in ast.walk(led_init.node)),
+             'every position of the ring gets an LED object of its own (created inside the loop / comprehension that fills the ring)')
     for path, qual, chan in ((LED, 'LEDDriverMemory.write_data', lambda c: 'led.%s' % c), (LEDT, 'LEDTimingsDriverMemory.write_data', lambda c: "timing['rgb']['%s']" % c)):
         fx = m.func(path, qual)
         sc = Scope.of(fx)
@@ -469,6 +476,15 @@ def trajectory_rules(ctx, rule='R4'):
     segment and start layouts.  Shared with C14 (write-only images have the byte layout the firmware reads)."""
     m = ctx.model
     cb_ = m.cls(TRJ, '_CompressedBase')
+    # what pack() encodes is what the caller gave: the constructors keep their arguments as they are (a value folded into a range
+    # there no longer overflows - and no longer raises - in pack())
+    for cn_ in ('CompressedStart', 'CompressedSegment'):
+        ini = m.cls(TRJ, cn_).method('__init__')
+        ps_ = set(ini.params[1:])
+        rebound = sorted({x.id for x in ast.walk(ini.node) if isinstance(x, ast.Name) and isinstance(x.ctx, (ast.Store, ast.Del)) and x.id in ps_})
+        stores = {norm(s_.targets[0]): norm(s_.value) for s_ in walk_own(ini.node) if isinstance(s_, ast.Assign) and norm(s_.targets[0]).startswith('self.')}
+        ctx.inst(rule, ini, 'arguments-kept-as-given', not rebound and bool(stores) and all(v_ in ps_ for v_ in stores.values()) and len(stores) == len(ps_),
+                 '%s.__init__ stores each argument unchanged (re-bound: %s; stores: %s)' % (cn_, rebound, stores))
     for fn, want in (('_encode_spatial', 'int({0} * 1000)'), ('_encode_yaw', 'int(math.degrees({0}) * 10)')):
         fx = cb_.method(fn)
         rs = [norm(s.value) for s in walk_own(fx.node) if isinstance(s, ast.Return)]
